@@ -115,6 +115,36 @@ def theorem_layouts(ctx, n):
             ctx.sample({"text": t, "layout": "theorem: blank run %r, line break %r" % (w, b)})
 
 
+def long_lines(ctx, n):
+    """layouts with a line of more than 64 KiB (a comment line, a trailing comment, a run of blanks): still grammatical, still the
+    model written.  Judged on the implementation only: the extracted pre-pass is quadratic in the length of a line."""
+    rng = ctx.rng
+    items = []
+    for _ in range(n):
+        f = dslgen.gen_file(rng, modular=False, hostile=0.0, max_types=3, max_rels=3)
+        d = dslgen.render_file(f, dslgen.Layout(rng, wild=0.0))
+        ls = d.split("\n")
+        k = rng.randrange(2, max(3, len(ls)))
+        how = rng.choice(["comment-line", "trailing-comment", "blank-run"])
+        if how == "comment-line":
+            ls.insert(k, "# " + "c" * 70000)
+        elif how == "trailing-comment":
+            ls[1] = ls[1] + " # " + "c" * 70000
+        else:
+            ls[1] = ls[1] + " " * 70000
+        items.append((f, "long-line:" + how, "\n".join(ls)))
+    res = [tf.norm_impl_dsl(r) for r in tf.impl_dsl(ctx, [x[2] for x in items], False)]
+    for (f, lay, d), a in zip(items, res):
+        ctx.evaluations += 1
+        ctx.count("layout_" + lay)
+        exp = dslgen.expected_model(f)
+        if not (a[0] == "ok" and dslgen.model_eq_ws(a[1], exp)):
+            ctx.violation("layout-" + ("rejected" if a[0] != "ok" else "wrong-model"),
+                          {"input": S(d), "text": d[:300] + " ... (%d characters)" % len(d), "layout": lay,
+                           "why": "a grammatical layout with a line of more than 64 KiB was rejected" if a[0] != "ok" else "the parsed model differs from the model written",
+                           "impl": a if a[0] != "ok" else {"model": a[1]}, "expected_model": dslgen.canon_model(exp)})
+
+
 def run(ctx):
     ctx.rule = ("random syntax trees (types, relations, nested/parenthesised operators, restrictions with wildcard/"
                 "relation/condition, keyword and extended identifiers, conditions with plain and hostile CEL bodies, "
@@ -127,6 +157,7 @@ def run(ctx):
     check_batch(ctx, gen_items(ctx, n, [0.0, 0.25, 0.6]), "generated")
     check_batch(ctx, small_exhaustive(ctx), "small")
     theorem_layouts(ctx, 300 if ctx.tier == "quick" else 4000)
+    long_lines(ctx, 6 if ctx.tier == "quick" else 40)
     # the repository's own documents: correspondence only (no expected model)
     docs = dslgen.corpus_dsl()
     for modular in (False, True):
